@@ -60,3 +60,53 @@ fn vx_witness_virial() {
     }
     println!("explored: {n_ok} values, {n_bad} off");
 }
+
+// The same for a ONE-component probe model: the virial coefficients must not depend on the amount of substance handed in
+// (None, the reference amount, a macroscopic amount), and must equal the hand values.
+struct P1 { b0: f64, b1: f64, c0: f64, c1: f64 }
+impl Components for P1 { fn components(&self) -> usize { 1 } fn subset(&self, _: &[usize]) -> Self { unimplemented!() } }
+impl Residual for P1 {
+    fn compute_max_density(&self, _: &Array1<f64>) -> f64 { 1.0 }
+    fn residual_helmholtz_energy_contributions<D: DualNum<f64> + Copy + ScalarOperand>(&self, s: &StateHD<D>) -> Vec<(String, D)> {
+        let t = s.temperature;
+        let rho = s.partial_density[0];
+        vec![("p".into(), s.volume * ((t * self.b0 + t.recip() * self.b1) * rho * rho + (t * t * self.c1 + self.c0) * rho * rho * rho))]
+    }
+}
+
+#[test]
+fn vx_witness_virial_pure() {
+    let p = P1 { b0: 0.7, b1: -250.0, c0: 3.0, c1: 1e-4 };
+    let (b0, b1, c0, c1) = (p.b0, p.b1, p.c0, p.c1);
+    let eos = Arc::new(p);
+    let (mut n_ok, mut n_bad) = (0, 0);
+    for t in [250.0, 310.0, 500.0] {
+        let temp = Temperature::from_reduced(t);
+        let (b, c) = (b0 * t + b1 / t, 2.0 * (c0 + c1 * t * t));
+        let (bt, ct) = (b0 - b1 / (t * t), 4.0 * c1 * t);
+        let amounts: Vec<(String, Option<Moles<Array1<f64>>>)> = vec![
+            ("no amount given".into(), None),
+            ("2.5 reduced units".into(), Some(Moles::from_reduced(arr1(&[2.5])))),
+            ("2.5 mol".into(), Some(arr1(&[2.5]) * MOL)),
+            ("1e-3 mol".into(), Some(arr1(&[1e-3]) * MOL)),
+        ];
+        for (what, moles) in &amounts {
+            let m = moles.as_ref();
+            let got = [
+                ("second_virial_coefficient", eos.second_virial_coefficient(temp, m).map(|x| x.to_reduced()), b),
+                ("third_virial_coefficient", eos.third_virial_coefficient(temp, m).map(|x| x.to_reduced()), c),
+                ("second_virial_coefficient_temperature_derivative", eos.second_virial_coefficient_temperature_derivative(temp, m).map(|x| x.to_reduced()), bt),
+                ("third_virial_coefficient_temperature_derivative", eos.third_virial_coefficient_temperature_derivative(temp, m).map(|x| x.to_reduced()), ct),
+            ];
+            for (name, g, exp) in got {
+                n_ok += 1;
+                match g {
+                    Ok(g) if (g - exp).abs() <= 1e-10 * (1.0 + exp.abs()) => {}
+                    Ok(g) => { n_bad += 1; if n_bad <= 8 { println!("WITNESS one-component model, {name} at T={t} with {what}: got {g:e}, expected {exp:e}"); } }
+                    Err(e) => { n_bad += 1; if n_bad <= 8 { println!("WITNESS one-component model, {name} at T={t} with {what}: error {e}"); } }
+                }
+            }
+        }
+    }
+    println!("explored: {n_ok} virial coefficients of a one-component model, {n_bad} off");
+}
